@@ -148,6 +148,12 @@ def boom(i):
     return f
 
 
+def always_boom(i):
+    def g():
+        raise Boom('boom%d in thread %d' % (i * 7, i))
+    return g
+
+
 # ---- per-thread callables / classes that the engine finds by NAME in the namespace
 CALLS = {'cmp': 0, 'fn': 0}        # reach evidence: how often the engine called them
 
@@ -267,6 +273,11 @@ TEMPLATES = [
     ('try', 'HTML', '<dtml-try>T<dtml-var f>-<dtml-var x><dtml-except Boom>H<dtml-var error_value><dtml-var x>'
                     '<dtml-else>L<dtml-var x></dtml-try><dtml-try><dtml-var f><dtml-finally>F<dtml-var x></dtml-try>',
      lambda i: dict(f=boom(i), x='x%d' % i, Boom=Boom)),
+    # every thread is inside the except-handling path with its own error; the handler shows all three error_* names
+    ('try_tb', 'HTML', '<dtml-try>T<dtml-var g><dtml-except Boom>H<dtml-var error_type>|<dtml-var error_value>|'
+                       '<dtml-var error_tb>|<dtml-var x><dtml-except>other</dtml-try>'
+                       '<dtml-try><dtml-var "1 / z"><dtml-except ZeroDivisionError ValueError>Z<dtml-var error_value>:<dtml-var error_tb></dtml-try>',
+     lambda i: dict(g=always_boom(i), x='x%d' % i, Boom=Boom, z=0)),
     ('raise', 'HTML', '<dtml-try><dtml-if flag><dtml-raise KeyError>msg<dtml-var x></dtml-raise></dtml-if>ok<dtml-var x>'
                       '<dtml-except KeyError>caught:<dtml-var error_value></dtml-try>',
      lambda i: dict(flag=i % 2, x='x%d' % i)),
@@ -634,6 +645,32 @@ def two_preemptions(runner, spec, cooked, ctx, traces, idx_filter, cap, rng):
             runner.execute(spec, cooked, 2, [(p, k1), (q, k2), (p, None), (q, None)], kind='2p')
 
 
+def late_compile(runner, spec, variant, ctx, traces, idx_filter, n_early, n_late):
+    """Uncooked templates that compile another uncooked template while rendering (a shared sub-template in the
+    defaults): B stops at one of its first sites (it has seen the template uncompiled), A runs to one of the LAST
+    occurrences of its sites (inside the last compilation its render performs), B finishes, A finishes - the only
+    2-preemption shape in which two compilations of different templates overlap."""
+    n = 0
+    for p in (0, 1):
+        q = 1 - p
+        early = dedup_sites(traces[p], both_ends=False)[:n_early]
+        last = {}
+        for i, s_ in enumerate(traces[q]):
+            last[s_] = i
+        late = sorted(set(last.values()))
+        if len(late) > n_late:
+            step = len(late) / float(n_late)
+            late = sorted({late[int(i * step)] for i in range(n_late)})
+        for k1 in early:
+            for k2 in late:
+                if k2 <= 0:
+                    continue
+                n += 1
+                if not idx_filter(n):
+                    continue
+                runner.execute(spec, variant, 2, [(p, k1), (q, k2), (p, None), (q, None)], kind='late')
+
+
 def same_place(runner, spec, cooked, ctx, traces, idx_filter, stride):
     """Both threads stopped at the same place: A runs k steps, B runs up to the matching step of
     its own trace (the same (file,line), same occurrence number: the same tag instance when both
@@ -795,8 +832,36 @@ def install(ctx):
     roots = [os.path.dirname(DocumentTemplate.__file__), os.path.dirname(TreeDisplay.__file__)]
     sched = Scheduler(roots)
     if not hasattr(DT_String, 'COOKLOCK'):
-        ctx.inconclusive('DT_String.COOKLOCK not found: cannot make the cook lock cooperative')
+        ctx.count('note:DT_String.COOKLOCK not found (diagnosis only)')
     DT_String.COOKLOCK = sched.lock
+    # every lock the package itself creates later (a lock per template, per tag, ...) must be cooperative too, or
+    # a parked holder would block a running thread in the kernel: the lock factories the package modules imported
+    # by name are replaced by a factory of scheduler-aware locks
+    import sys
+    import threading
+    from vlib.sched import CoopLock
+    real = {threading.Lock, threading.RLock, getattr(threading, '_allocate_lock', None),
+            getattr(threading, '_CRLock', None), getattr(threading, '_PyRLock', None)}
+    real.discard(None)
+
+    def coop_factory(*a, **k):
+        ctx.count('locks:cooperative locks created by the package')
+        return CoopLock(sched)
+    replaced = 0
+    for name, mod in list(sys.modules.items()):
+        if mod is None or not (name == 'DocumentTemplate' or name.startswith('DocumentTemplate.') or
+                               name == 'TreeDisplay' or name.startswith('TreeDisplay.')):
+            continue
+        for attr, val in list(vars(mod).items()):
+            try:
+                if val in real:
+                    setattr(mod, attr, coop_factory)
+                    replaced += 1
+                elif val is threading:
+                    pass        # `threading.Lock()` through the module object: not redirected (counted below)
+            except TypeError:
+                pass
+    ctx.count('locks:lock factories of package modules made cooperative', replaced)
     sched.install()
     return sched
 
@@ -835,6 +900,8 @@ def run(ctx, spec_):
                 cap = 150 if quick else 12000
                 two_preemptions(runner, spec, cooked, ctx, traces, mine, cap,
                                 __import__('random').Random(ctx.seed * 7919 + len(spec['name'])))
+                if spec['defaults'] and not cooked:
+                    late_compile(runner, spec, cooked, ctx, traces, mine, 12 if quick else 40, 60 if quick else 400)
                 if not quick or cooked or len(spec['variants']) == 1:
                     # quick: the render phase is the same in both variants, once is enough
                     same_place(runner, spec, cooked, ctx, traces, mine, 16 if quick else 4)
@@ -862,7 +929,7 @@ def finish(agg):
         inc.append('LINE callback saw no package line in any worker')
     if not c.get('preemptions taken'):
         inc.append('no preemption was ever taken (threads never overlapped)')
-    kinds = ['executions:1p', 'executions:2p', 'executions:pct', 'executions:same', 'executions:3t2p',
+    kinds = ['executions:1p', 'executions:2p', 'executions:late', 'executions:pct', 'executions:same', 'executions:3t2p',
              'executions:2t3p', 'executions:orders']
     if agg['tier'] == 'thorough':
         kinds.append('executions:2t4p')
